@@ -115,6 +115,7 @@ class LoopInfo:
         self.idx = Sym("i%d" % lid, "idx")
         self.carried = {}         # location -> (init, next, closed_delta or None)
         self.breaks = []          # guards (within iteration) under which break happens
+        self.stops = []           # breaks + returns: every early end of the iteration sequence
         self.events = (0, 0)      # slice of the event log covered by the body
         self.body_guard = TRUE
         self.invariant_guard = None
@@ -141,6 +142,26 @@ class LoopCtl:
     def __init__(self):
         self.brk = []
         self.cont = []
+
+
+def nonneg(t):
+    """provably non-negative integer term (stream positions, unsigned fields, loop counters)"""
+    if isinstance(t, Const):
+        return isinstance(t.v, int) and t.v >= 0
+    if isinstance(t, Lin):
+        return t.const >= 0 and all(c > 0 and nonneg(x) for x, c in t.terms)
+    if isinstance(t, Sym):
+        return t.kind in ("loopidx", "idx")
+    if isinstance(t, Op):
+        if t.op == "int_from_bytes":
+            return len(t.args) < 3 or t.args[2] == FALSE
+        if t.op in ("len", "ord"):
+            return True
+        if t.op in ("add", "mul", "floordiv", "mod", "bitand", "bitor", "rshift", "lshift", "min", "max"):
+            return all(nonneg(a) for a in t.args)
+    if isinstance(t, Ite):
+        return nonneg(t.a) and nonneg(t.b)
+    return False
 
 
 def flat_set(conjuncts):
@@ -709,10 +730,26 @@ class _ExprMixin:
         return fv(val, spec, conv)
 
     def ev_Tuple(self, n):
+        if any(isinstance(e, ast.Starred) for e in n.elts):
+            return self.display_with_stars(n, "tuple")
         return self.mk_list([self.ev(e) for e in n.elts], "tuple")
 
     def ev_List(self, n):
+        if any(isinstance(e, ast.Starred) for e in n.elts):
+            return self.display_with_stars(n, "list")
         return self.mk_list([self.ev(e) for e in n.elts], "list")
+
+    def display_with_stars(self, n, typ):
+        """[a, *b, c]: built like a sequence of append / extend calls"""
+        res = self.mk_list([], "list")
+        o = self.heap[res.oid]
+        for e in n.elts:
+            if isinstance(e, ast.Starred):
+                self.list_method(res, o, "extend", [self.ev(e.value)], {}, e)
+            else:
+                self.list_method(res, o, "append", [self.ev(e)], {}, e)
+        o.typ = typ
+        return res
 
     def ev_Set(self, n):
         return self.mk_list([self.ev(e) for e in n.elts], "set")
@@ -729,6 +766,11 @@ class _ExprMixin:
         d = DictObj(self.born_now())
         for k, v in zip(n.keys, n.values):
             if k is None:
+                src = self.simp(self.ev(v))
+                so = self.heap.get(src.oid) if isinstance(src, Ref) else None
+                if not isinstance(so, DictObj):
+                    raise AnalysisError("dict display with ** of a non-dictionary value (line %s)" % getattr(n, "lineno", "?"))
+                d.entries.extend(so.entries)
                 continue
             d.entries.append((self.ev(k), self.ev(v), TRUE, ()))
         return self.alloc(d)
@@ -763,12 +805,22 @@ class _ExprMixin:
         if lobj is not None and lobj.concrete() and all(isinstance(x, Const) for x in (lo, hi, st)):
             items = lobj.items[slice(lo.v, hi.v, st.v)]
             return self.alloc(ListObj(self.born_now(), list(items), lobj.typ))
+        # D[a:b][c:d] == D[a+c:a+d] for constants 0 <= c <= d <= b-a and a >= 0 (clamping at len(D) is the same on both sides)
+        if isinstance(base, Op) and base.op == "getslice" and len(base.args) == 3 and st == NONE and base.args[1] != NONE \
+                and base.args[2] != NONE and (lo == NONE or is_int(lo)) and is_int(hi):
+            a, b = base.args[1], base.args[2]
+            width = sub(b, a)
+            c = 0 if lo == NONE else lo.v
+            if is_int(width) and 0 <= c <= hi.v <= width.v and nonneg(a):
+                return self.getslice(base.args[0], add(a, Const(c)), add(a, hi), NONE, node)
         r = Op("getslice", base, lo, hi) if st == NONE else Op("getslice", base, lo, hi, st)
         self.event("slice", (base, lo, hi, st), node)
         return r
 
     def getitem(self, base, idx, node=None):
         base = self.simp(base)
+        if isinstance(idx, Op) and idx.op == "sliceobj":
+            return self.getslice(base, idx.args[0], idx.args[1], idx.args[2], node)
         if isinstance(base, Ite):
             return ite(base.c, self.getitem(base.a, idx, node), self.getitem(base.b, idx, node))
         if isinstance(base, Const) and isinstance(idx, Const):
@@ -1009,6 +1061,9 @@ class _CallMixin:
             if self.writelog is not None:
                 self.writelog.add(("list", ref.oid))
             self.event("append", (ref, args[0]), node)
+            return NONE
+        if name == "extend" and isinstance(self.simp(args[0]), GenV):
+            self.run_generator(self.simp(args[0]), lambda val: self.list_method(ref, o, "append", [val], {}, node), node)
             return NONE
         if name == "extend":
             src = self.as_list(args[0])
@@ -1393,7 +1448,7 @@ class _StmtMixin:
                 elif isinstance(v, Ite):
                     self.assign(e, self.unpack_ite(v, i, n), st)
                 else:
-                    self.assign(e, Op("unpack", v, Const(i)), st)
+                    self.assign(e, Op("getitem", v, Const(i)), st)
         elif isinstance(t, ast.Subscript):
             base = self.simp(self.ev(t.value))
             if isinstance(t.slice, ast.Slice):
@@ -1414,7 +1469,7 @@ class _StmtMixin:
             return Const(v.v[i])
         if isinstance(v, Undef):
             return v
-        return Op("unpack", v, Const(i))
+        return Op("getitem", v, Const(i))
 
     def fold_under_guard(self, t):
         """constant propagation from equality guards: under a path condition x == C a key built from x folds"""
@@ -1891,6 +1946,12 @@ class _LoopMixin:
         else:
             fr.ret = saved_ret
         new_dead = fr.dead[ndead0:]
+        # every way the iteration sequence ends early (break / return), relative to the start of an iteration
+        known = L.body_guard_set | L.body_guard_full
+
+        def rel_stop(d):
+            return and_(*[c for c in (d.args if isinstance(d, Op) and d.op == "and" else (d,)) if c not in known])
+        L.stops = list(brk) + [rel_stop(d) for d in new_dead]
         if new_dead:
             del fr.dead[ndead0:]
             fr.dead.append(Op("exists", Const(L.lid), or_(*new_dead)))
@@ -2256,6 +2317,21 @@ class _ExtMixin:
 
     def x_math_ceil(self, a, k, n):
         return Op("ceil", a[0])
+
+    def x_setattr(self, a, k, n):
+        name = self.fold_under_guard(a[1])
+        if is_const(name, str):
+            self.set_attr(a[0], name.v, a[2], n)
+            return NONE
+        raise AnalysisError("setattr with a non-constant attribute name: %r" % (name,))
+
+    def x_slice(self, a, k, n):
+        if len(a) == 1:
+            return Op("sliceobj", NONE, a[0], NONE)
+        return Op("sliceobj", a[0], a[1], a[2] if len(a) > 2 else NONE)
+
+    def x_divmod(self, a, k, n):
+        return self.mk_list([binop("floordiv", a[0], a[1]), binop("mod", a[0], a[1])], "tuple")
 
     def x_getattr(self, a, k, n):
         if is_const(a[1], str):
